@@ -8,7 +8,8 @@ from vlib import disc, flux, fuzzrun, runtool
 from vlib.harness import CheckBase, Verdict, VERIF
 
 FAULTS = ["flip-id", "flip-data", "flip-idmark", "flip-datamark", "flip-gap", "slip", "zero-run", "truncate",
-          "kill-id-sync", "kill-data-sync", "kill-pair", "kill-pair"]
+          "kill-id-sync", "kill-data-sync", "kill-pair", "kill-pair", "deleted-damaged", "deleted-damaged",
+          "badcrc-damaged"]
 
 
 @st.composite
@@ -90,7 +91,18 @@ class C06(CheckBase):
                 elif case["order"] == "rev":
                     order = order[::-1]
                 fm = []
-                per.append(list(enc_fn(t, sd, secs, order=order, track_bytes=tb, fieldmap=fm)))
+                quirks = {}
+                for f in case["faults"]:
+                    if f["kind"] in ("deleted-damaged", "badcrc-damaged") and f["track"] == t and \
+                            min(f["side"], nsides - 1) == sd:
+                        # the record is written as a deleted-data (control) record / ordinary record whose data
+                        # was damaged after the CRC was computed: it must never be returned as good
+                        bad = bytearray(secs[f["sector"]])
+                        bad[f["off"] % 256] ^= 1 << (f["bits"] % 8)
+                        quirks[f["sector"]] = {"data": bytes(bad)}
+                        if f["kind"] == "deleted-damaged":
+                            quirks[f["sector"]]["mark"] = 0xF8
+                per.append(list(enc_fn(t, sd, secs, order=order, track_bytes=tb, fieldmap=fm, quirks=quirks)))
                 pm.append({f["sector"]: f for f in fm})
             cells.append(per)
             fmaps.append(pm)
@@ -159,6 +171,8 @@ class C06(CheckBase):
                 for q in range(max(0, ids - 16 * 6), min(len(c), ids + 64)):
                     c[q] = 1 if (q % 2 == 0) else 0
                 hit_field = True
+            elif k in ("deleted-damaged", "badcrc-damaged"):
+                hit_field = True          # applied when the track was encoded
             elif k == "kill-pair":
                 # the data field of this sector AND the ID field of the physically next sector vanish
                 for q in range(max(0, ds - 16 * 6), min(len(c), ds + 64)):
